@@ -1,4 +1,5 @@
 import MqttVerif.Conn.Lemmas.P7Frame
+import MqttVerif.Conn.Lemmas.Resend
 /-!
 # Lemmas for C07 (inbound QoS 2 exactly once): who touches `handled`, who pushes `.recv`   (agent P7)
 -/
@@ -52,6 +53,77 @@ theorem propsFold_recvs (f : C → Nat → Nat → C) (hf : ∀ c i v, recvs (f 
   simp [sendStored, apply_ite C.s, apply_ite St.handled]
 @[simp] theorem sendStored_recvs (c : C) : recvs (sendStored c).ev = recvs c.ev := by
   simp [sendStored, apply_ite C.ev, apply_ite recvs]
+
+
+/-! ## `refuseSend` (fix 1d0ef05): an error, then possibly the release of the packet's identifier -/
+@[simp] theorem refuseSend_cfg (c : C) (e : Nat) (p : Pkt) : (refuseSend c e p).cfg = c.cfg := by
+  simp only [refuseSend]; split <;> simp
+@[simp] theorem refuseSend_handled (c : C) (e : Nat) (p : Pkt) : (refuseSend c e p).s.handled = c.s.handled := by
+  simp only [refuseSend]; split <;> simp
+@[simp] theorem refuseSend_store (c : C) (e : Nat) (p : Pkt) : (refuseSend c e p).s.store = c.s.store := by
+  simp only [refuseSend]; split <;> simp
+@[simp] theorem refuseSend_puback (c : C) (e : Nat) (p : Pkt) : (refuseSend c e p).s.puback = c.s.puback := by
+  simp only [refuseSend]; split <;> simp
+@[simp] theorem refuseSend_pubrec (c : C) (e : Nat) (p : Pkt) : (refuseSend c e p).s.pubrec = c.s.pubrec := by
+  simp only [refuseSend]; split <;> simp
+@[simp] theorem refuseSend_pubcomp (c : C) (e : Nat) (p : Pkt) : (refuseSend c e p).s.pubcomp = c.s.pubcomp := by
+  simp only [refuseSend]; split <;> simp
+@[simp] theorem refuseSend_suback (c : C) (e : Nat) (p : Pkt) : (refuseSend c e p).s.suback = c.s.suback := by
+  simp only [refuseSend]; split <;> simp
+@[simp] theorem refuseSend_unsuback (c : C) (e : Nat) (p : Pkt) : (refuseSend c e p).s.unsuback = c.s.unsuback := by
+  simp only [refuseSend]; split <;> simp
+@[simp] theorem refuseSend_status (c : C) (e : Nat) (p : Pkt) : (refuseSend c e p).s.status = c.s.status := by
+  simp only [refuseSend]; split <;> simp
+@[simp] theorem refuseSend_needStore (c : C) (e : Nat) (p : Pkt) : (refuseSend c e p).s.needStore = c.s.needStore := by
+  simp only [refuseSend]; split <;> simp
+@[simp] theorem refuseSend_ver (c : C) (e : Nat) (p : Pkt) : (refuseSend c e p).s.ver = c.s.ver := by
+  simp only [refuseSend]; split <;> simp
+@[simp] theorem refuseSend_autoPub (c : C) (e : Nat) (p : Pkt) : (refuseSend c e p).s.autoPub = c.s.autoPub := by
+  simp only [refuseSend]; split <;> simp
+@[simp] theorem refuseSend_mpsSend (c : C) (e : Nat) (p : Pkt) : (refuseSend c e p).s.mpsSend = c.s.mpsSend := by
+  simp only [refuseSend]; split <;> simp
+@[simp] theorem refuseSend_recvs (c : C) (e : Nat) (p : Pkt) : recvs (refuseSend c e p).ev = recvs c.ev := by
+  simp only [refuseSend]; split <;> simp
+@[simp] theorem refuseSend_sends (c : C) (e : Nat) (p : Pkt) : sends (refuseSend c e p).ev = sends c.ev := by
+  simp only [refuseSend]; split <;> simp
+@[simp] theorem refuseSend_errs (c : C) (e : Nat) (p : Pkt) : errs (refuseSend c e p).ev = errs c.ev ++ [e] := by
+  simp only [refuseSend]; split <;> simp
+
+/-! ## `resendStored` (fix 999e935): `sendStored`, then possibly `sendPostProcess` -/
+@[simp] theorem resendStored_cfg (c : C) : (resendStored c).cfg = (sendStored c).cfg := by
+  rcases resendStored_eq c with h | h <;> rw [h] <;> simp
+@[simp] theorem resendStored_handled (c : C) : (resendStored c).s.handled = (sendStored c).s.handled := by
+  rcases resendStored_eq c with h | h <;> rw [h] <;> simp
+@[simp] theorem resendStored_store (c : C) : (resendStored c).s.store = (sendStored c).s.store := by
+  rcases resendStored_eq c with h | h <;> rw [h] <;> simp
+@[simp] theorem resendStored_puback (c : C) : (resendStored c).s.puback = (sendStored c).s.puback := by
+  rcases resendStored_eq c with h | h <;> rw [h] <;> simp
+@[simp] theorem resendStored_pubrec (c : C) : (resendStored c).s.pubrec = (sendStored c).s.pubrec := by
+  rcases resendStored_eq c with h | h <;> rw [h] <;> simp
+@[simp] theorem resendStored_pubcomp (c : C) : (resendStored c).s.pubcomp = (sendStored c).s.pubcomp := by
+  rcases resendStored_eq c with h | h <;> rw [h] <;> simp
+@[simp] theorem resendStored_suback (c : C) : (resendStored c).s.suback = (sendStored c).s.suback := by
+  rcases resendStored_eq c with h | h <;> rw [h] <;> simp
+@[simp] theorem resendStored_unsuback (c : C) : (resendStored c).s.unsuback = (sendStored c).s.unsuback := by
+  rcases resendStored_eq c with h | h <;> rw [h] <;> simp
+@[simp] theorem resendStored_status (c : C) : (resendStored c).s.status = (sendStored c).s.status := by
+  rcases resendStored_eq c with h | h <;> rw [h] <;> simp
+@[simp] theorem resendStored_needStore (c : C) : (resendStored c).s.needStore = (sendStored c).s.needStore := by
+  rcases resendStored_eq c with h | h <;> rw [h] <;> simp
+@[simp] theorem resendStored_ver (c : C) : (resendStored c).s.ver = (sendStored c).s.ver := by
+  rcases resendStored_eq c with h | h <;> rw [h] <;> simp
+@[simp] theorem resendStored_autoPub (c : C) : (resendStored c).s.autoPub = (sendStored c).s.autoPub := by
+  rcases resendStored_eq c with h | h <;> rw [h] <;> simp
+@[simp] theorem resendStored_mpsSend (c : C) : (resendStored c).s.mpsSend = (sendStored c).s.mpsSend := by
+  rcases resendStored_eq c with h | h <;> rw [h] <;> simp
+@[simp] theorem resendStored_pidMan (c : C) : (resendStored c).s.pidMan = (sendStored c).s.pidMan := by
+  rcases resendStored_eq c with h | h <;> rw [h] <;> simp
+@[simp] theorem resendStored_recvs (c : C) : recvs (resendStored c).ev = recvs (sendStored c).ev := by
+  rcases resendStored_eq c with h | h <;> rw [h] <;> simp
+@[simp] theorem resendStored_sends (c : C) : sends (resendStored c).ev = sends (sendStored c).ev := by
+  rcases resendStored_eq c with h | h <;> rw [h] <;> simp
+@[simp] theorem resendStored_errs (c : C) : errs (resendStored c).ev = errs (sendStored c).ev := by
+  rcases resendStored_eq c with h | h <;> rw [h] <;> simp
 
 @[simp] theorem releaseAll_handled (c : C) (l : List Nat) : (releaseAll c l).s.handled = c.s.handled := by
   induction l generalizing c with
